@@ -62,6 +62,8 @@ def run(ctx, progs):
         n = 0
         # ------------------------------------------------------------------ &[u8] : ReadVolatile
         b = find_impl(prog, RV, r"&\[u8\]", "read_volatile")
+        if not b:
+            ctx.ob("C13.anchor", "find_impl(prog, RV, r'&\[u8\]', 'read_volatile')", False, "", "anchor body not found (renamed or removed): the rule cannot be evaluated — fail closed")
         if b:
             n += 1
             total = C("cmp::min", C("VolatileSlice::len", P(2)), C("slice::len", P(1)))
@@ -75,6 +77,8 @@ def run(ctx, progs):
             ctx.ob("R13.1.slice_read", b.key, ok_ret and ok_adv, b.where(),
                    f"copies min(buf.len(), self.len()) bytes, returns the count the copy returned [{ok_ret}], and advances *self by that same count via split_at(..).1 [{ok_adv}]")
         b = find_impl(prog, RV, r"&\[u8\]", "read_exact_volatile")
+        if not b:
+            ctx.ob("C13.anchor", "find_impl(prog, RV, r'&\[u8\]', 'read_exact_volatile')", False, "", "anchor body not found (renamed or removed): the rule cannot be evaluated — fail closed")
         if b:
             n += 1
             eof_ok = deleg_ok = False
@@ -90,6 +94,8 @@ def run(ctx, progs):
                    f"Err(UnexpectedEof) exactly when buf.len() > self.len() (strict) [{eof_ok}]; otherwise read_volatile(buf).map(|_| ()) [{deleg_ok}]")
         # ------------------------------------------------------------------ &mut [u8] : WriteVolatile
         b = find_impl(prog, WV, r"&mut \[u8\]", "write_volatile")
+        if not b:
+            ctx.ob("C13.anchor", "find_impl(prog, WV, r'&mut \[u8\]', 'write_volatile')", False, "", "anchor body not found (renamed or removed): the rule cannot be evaluated — fail closed")
         if b:
             n += 1
             total = C("cmp::min", C("VolatileSlice::len", P(2)), C("slice::len", P(1)))
@@ -102,6 +108,8 @@ def run(ctx, progs):
             ctx.ob("R13.1.slice_write", b.key, ok_ret and ok_adv, b.where(),
                    f"copies min(buf.len(), self.len()) bytes, returns that count [{ok_ret}], advances *self by it via take/split_at_mut(..).1 [{ok_adv}]")
         b = find_impl(prog, WV, r"&mut \[u8\]", "write_all_volatile")
+        if not b:
+            ctx.ob("C13.anchor", "find_impl(prog, WV, r'&mut \[u8\]', 'write_all_volatile')", False, "", "anchor body not found (renamed or removed): the rule cannot be evaluated — fail closed")
         if b:
             n += 1
             w = C("WriteVolatile::write_volatile", P(1), P(2))
@@ -119,6 +127,8 @@ def run(ctx, progs):
             ctx.ob("R13.1.slice_write_all", b.key, zero_ok and okk, b.where(), f"Ok iff write_volatile(buf)? == buf.len() [{okk}], Err(WriteZero) otherwise [{zero_ok}]")
         # ------------------------------------------------------------------ Vec<u8>
         b = find_impl(prog, WV, r"std::vec::Vec<u8>", "write_volatile")
+        if not b:
+            ctx.ob("C13.anchor", "find_impl(prog, WV, r'std::vec::Vec<u8>', 'write_volatile')", False, "", "anchor body not found (renamed or removed): the rule cannot be evaluated — fail closed")
         if b:
             n += 1
             cnt = C("VolatileSlice::len", P(2))
